@@ -49,6 +49,10 @@ pub struct IdSpec {
     pub k: Vec<u8>,
     /// use `RecordIdentifier::default()` instead
     pub default: bool,
+    /// 0: the reconciled document; 1: namespace all 0xFF; 2..=5: the namespace of document
+    /// (foreign - 2) of the same store (a peer may send any bounds)
+    #[serde(default)]
+    pub foreign: u8,
 }
 
 impl IdSpec {
@@ -57,7 +61,11 @@ impl IdSpec {
             RecordIdentifier::default()
         } else {
             let w = world();
-            RecordIdentifier::new(w.doc_id(sd()), w.author_id(self.a), &self.k)
+            match self.foreign {
+                0 => RecordIdentifier::new(w.doc_id(sd()), w.author_id(self.a), &self.k),
+                1 => RecordIdentifier::new(iroh_docs::NamespaceId::from(&[0xFFu8; 32]), w.author_id(self.a), &self.k),
+                n => RecordIdentifier::new(w.doc_id((n - 2) % 4), w.author_id(self.a), &self.k),
+            }
         }
     }
 }
@@ -135,12 +143,13 @@ impl Scenario for Pair {
         if self.mode == Mode::Differential {
             let gen_id = |rng: &mut Rng, items: &[Ent]| -> IdSpec {
                 match rng.below(10) {
-                    0 => IdSpec { a: 0, k: vec![], default: true },
+                    0 => IdSpec { a: 0, k: vec![], default: true, foreign: 0 },
                     1..=5 if !items.is_empty() => {
                         let e = rng.pick(items);
-                        IdSpec { a: e.a, k: e.k.clone(), default: false }
+                        IdSpec { a: e.a, k: e.k.clone(), default: false, foreign: 0 }
                     }
-                    _ => IdSpec { a: rng.below(g.authors as u64 + 1) as u8, k: gen_key(rng, g.max_key_len), default: false },
+                    6 => IdSpec { a: rng.below(g.authors as u64 + 1) as u8, k: gen_key(rng, g.max_key_len), default: false, foreign: rng.range(1, 5) as u8 },
+                    _ => IdSpec { a: rng.below(g.authors as u64 + 1) as u8, k: gen_key(rng, g.max_key_len), default: false, foreign: 0 },
                 }
             };
             for _ in 0..rng.urange(2, 8) {
@@ -602,7 +611,11 @@ impl Pair {
                         }
                     }
                     Probe::Prefixes { key } => {
-                        let key = key.id();
+                        // (prefix lookups and removals are only ever called with identifiers of
+                        // entries that passed the namespace check, so they are probed with
+                        // identifiers of the reconciled document; range bounds come from the
+                        // peer and are probed with any namespace)
+                        let key = IdSpec { foreign: 0, ..key.clone() }.id();
                         let got = ranger_ext::replica_prefixes_of(&mut r, &key).map_err(|e| harness(format!("{e:#}")))?;
                         let want = map.prefixes_of(&key);
                         if got != want {
@@ -611,7 +624,7 @@ impl Pair {
                     }
                     Probe::RemovePrefix { .. } if !mutating => {}
                     Probe::RemovePrefix { prefix, max_ts } => {
-                        let prefix = prefix.id();
+                        let prefix = IdSpec { foreign: 0, ..prefix.clone() }.id();
                         let t = *max_ts;
                         let got = ranger_ext::replica_remove_prefix_filtered(&mut r, &prefix, |rec| rec.timestamp() <= t).map_err(|e| harness(format!("{e:#}")))?;
                         let want = map.remove_prefix_filtered(&prefix, &|rec: &Record| rec.timestamp() <= t);
